@@ -261,8 +261,14 @@ impl MemoryBudget {
         let reserved = pool.reserved_size();
 
         loop {
+            #[cfg(kahflane_turdb_verif)]
+            crate::verif::point("budget.alloc.begin", &[pool as i64, bytes as i64]);
             let current_pool_used = pool_counter.load(Ordering::Acquire);
+            #[cfg(kahflane_turdb_verif)]
+            crate::verif::point("budget.alloc.loaded_pool", &[current_pool_used as i64]);
             let current_total_used = self.total_used();
+            #[cfg(kahflane_turdb_verif)]
+            crate::verif::point("budget.alloc.loaded_total", &[current_total_used as i64]);
             let total_limit = self.total_limit();
 
             let new_pool_used = current_pool_used + bytes;
@@ -289,6 +295,8 @@ impl MemoryBudget {
                 }
             }
 
+            #[cfg(kahflane_turdb_verif)]
+            crate::verif::point("budget.alloc.before_cas", &[current_pool_used as i64, new_pool_used as i64]);
             match pool_counter.compare_exchange_weak(
                 current_pool_used,
                 new_pool_used,
@@ -309,8 +317,12 @@ impl MemoryBudget {
         let pool_counter = self.pool_counter(pool);
 
         loop {
+            #[cfg(kahflane_turdb_verif)]
+            crate::verif::point("budget.release.begin", &[pool as i64, bytes as i64]);
             let current = pool_counter.load(Ordering::Acquire);
             let new_value = current.saturating_sub(bytes);
+            #[cfg(kahflane_turdb_verif)]
+            crate::verif::point("budget.release.loaded", &[current as i64, new_value as i64]);
 
             match pool_counter.compare_exchange_weak(
                 current,
